@@ -254,7 +254,7 @@ pub fn random_history(
 
 pub fn search_c01(seed: u64, ctx: &mut Ctx) -> Option<J> {
     let mut rng = Rng::new(seed);
-    const ROUNDS: usize = 900;
+    const ROUNDS: usize = 6000;
     for round in 0..ROUNDS {
         // tiny cases first: short histories on small orders
         let len_max = (1 + round * 15 / 300).min(15);
@@ -283,7 +283,7 @@ pub fn search_c01(seed: u64, ctx: &mut Ctx) -> Option<J> {
         }
     }
     // bit-block boundaries of the matrix
-    for round in 0..120 {
+    for round in 0..600 {
         for order in [8usize, 9, 63, 64, 65] {
             let len = 1 + rng.below((2 + round / 4).min(15));
             let ops =
